@@ -9,6 +9,7 @@ import MiniMoka.Spec.Oracles
 import MiniMoka.DequeHeap
 import MiniMoka.Config
 import MiniMoka.ConcR
+import MiniMoka.ConcS
 
 namespace MiniMoka
 namespace Driver
@@ -22,6 +23,7 @@ inductive Machine where
   | sync (p : Params) (s : Sync.SState)
   | sketch (s : Sketch)
   | deque (s : DequeHeap.FState)
+  | concs (p : Params) (c : ConcS.CState)
 
 /-- The operation part of a trace line (`op` or `op -> observation`). -/
 def opPart (line : String) : String :=
@@ -118,6 +120,72 @@ def facadeLine (m : Machine) (op : String) : Machine × Option String :=
        | _ => .deque st', some s!"{op} -> {fobs ob}")
   | _ => (m, none)
 
+/-! ### the concurrent cache through its phase-split API (model `ConcS.lean`)
+
+`pins t k v`, `pinv t k`, `pget t k`: the map step of an insert / invalidate / get by logical
+thread `t`; `penq t`: `t` sends the operation it holds (`full` when the write channel is full);
+`maint`: one housekeeping run; `sync`, `adv d`, `invall`, `snap`, `has k`, `iter` as usual. The
+snapshot's live-object counts include what the threads hold. -/
+
+def heldReadsOf : List (ConcS.Tid × ConcS.Pend) → List Sync.ROp
+  | [] => []
+  | (_, .read op) :: rest => op :: heldReadsOf rest
+  | (_, .write _) :: rest => heldReadsOf rest
+
+def concsSnapshot (p : Params) (c : ConcS.CState) : Snap :=
+  let virt : Sync.SState :=
+    { c.s with writeQ := c.s.writeQ ++ ConcS.pendWrites c.pending,
+               readQ := c.s.readQ ++ heldReadsOf c.pending }
+  { Sync.snapshot p virt with rq := c.s.readQ.length, wq := c.s.writeQ.length }
+
+def concsAfter (p : Params) (op : String) (c' : ConcS.CState) (out : String) : Machine × Option String :=
+  match c'.s.fault with
+  | some f => (.dead, some s!"{op} -> panic {f.toString}")
+  | none => (.concs p c', some s!"{op} -> {out}")
+
+def concsLine (p : Params) (c : ConcS.CState) (op : String) : Machine × Option String :=
+  let bad : Machine × Option String := (.concs p c, some s!"{op} -> bad-op")
+  let ev (e : ConcS.Ev) (out : String) : Machine × Option String :=
+    match ConcS.step p c e with
+    | some c' => concsAfter p op c' out
+    | none => bad
+  match op.splitOn " " with
+  | ["pins", t, k, v] =>
+    (match t.toNat?, k.toNat?, v.toNat? with
+     | some t, some k, some v => ev (.insMap t k v) "ok"
+     | _, _, _ => bad)
+  | ["pinv", t, k] =>
+    (match t.toNat?, k.toNat? with
+     | some t, some k => ev (.invMap t k) (if (ConcS.invalidateMap c.s k).2.isSome then "held" else "none")
+     | _, _ => bad)
+  | ["pget", t, k] =>
+    (match t.toNat?, k.toNat? with
+     | some t, some k => ev (.getMap t k) (obs (.val (ConcS.lookup p c.s k).2))
+     | _, _ => bad)
+  | ["penq", t] =>
+    (match t.toNat? with
+     | some t =>
+       (match ConcS.pendOf c.pending t, ConcS.step p c (.enq t) with
+        | some _, some c' => concsAfter p op c' "ok"
+        | some _, none => (.concs p c, some s!"{op} -> full")
+        | none, _ => bad)
+     | none => bad)
+  | ["maint"] => ev (.maint 0) "ok"
+  | ["sync"] => ev (.sync 0) "ok"
+  | ["invall"] => ev (.invAll 0) "ok"
+  | ["adv", d] =>
+    (match d.toNat? with
+     | some d => ev (.tick d) "ok"
+     | none => bad)
+  | ["snap"] => (.concs p c, some s!"{op} -> {obs (.snap (concsSnapshot p c))}")
+  | ["has", k] =>
+    (match k.toNat? with
+     | some k => (.concs p c, some s!"{op} -> {obs (.bool (Sync.containsKey p c.s k))}")
+     | none => bad)
+  | ["iter"] => (.concs p c, some s!"{op} -> {obs (.iter (sortBy (·.1) (Sync.iter p c.s)))}")
+  | ["drop"] => (.dead, some "drop -> dropped k=0 v=0")
+  | _ => bad
+
 def cacheLine (m : Machine) (op : String) : Machine × Option String :=
   match m with
   | .unsync p s =>
@@ -156,7 +224,7 @@ def stepLine (m : Machine) (line : String) : Machine × Option String :=
     | some c =>
       let knobs : Config.Knobs :=
         { maxCapacity := c.cap, hasWeigher := c.weigher != .none, timeToLive := c.ttl, timeToIdle := c.tti }
-      match (if c.kind == .unsync || c.kind == .sync then Config.build knobs
+      match (if c.kind == .unsync || c.kind == .sync || c.kind == .concs then Config.build knobs
              else .ok { maxCapacity := none, timeToLive := none, timeToIdle := none }) with
       | .error f => (.dead, some s!"{op} -> panic {f.toString}")
       | .ok _ =>
@@ -165,6 +233,7 @@ def stepLine (m : Machine) (line : String) : Machine × Option String :=
       | .sync => (.sync c.params {}, some s!"{op} -> ok")
       | .sketch => (.sketch {}, some s!"{op} -> ok")
       | .deque => (.deque {}, some s!"{op} -> ok")
+      | .concs => (.concs c.params {}, some s!"{op} -> ok")
   else
     match m with
     | .idle => (m, some s!"{op} -> bad-op")
@@ -177,6 +246,7 @@ def stepLine (m : Machine) (line : String) : Machine × Option String :=
       else cacheLine m op
     | .sketch _ => facadeLine m op
     | .deque _ => facadeLine m op
+    | .concs p c => concsLine p c op
 
 partial def loop (h : IO.FS.Stream) (out : IO.FS.Stream) (m : Machine) : IO Unit := do
   let line ← h.getLine
@@ -191,6 +261,7 @@ partial def loop (h : IO.FS.Stream) (out : IO.FS.Stream) (m : Machine) : IO Unit
 def kindOf (c : Cfg) : Spec.Kind :=
   match c.kind with
   | .sync => .sync
+  | .concs => .sync
   | _ => .unsync
 
 /-- The oracle of a property, by its id. `none` = no such oracle. -/
@@ -217,6 +288,40 @@ structure Case where
   cfg : Option Cfg
   trace : List (Op × Obs) := []      -- reversed
   parseError : Option String := none
+  held : List (Nat × Bool) := []     -- kind=concs: logical threads holding a (write? / read) op
+
+/-- kind=concs: one line of a phase-split run as a step of the *linearised* trace (operations
+ordered by their map steps, as in `ConcS.lin`): `pins`/`pinv`/`pget` are the insert, the
+invalidate and the get with its result; `penq` contributes nothing; `maint` counts as a
+maintenance run (`sync`); steps that were not enabled (`bad-op`, `full`) contribute nothing.
+Snapshots report the *logical* queue lengths: what is queued plus what threads still hold. -/
+def concsLineToTrace (held : List (Nat × Bool)) (opS obS : String) :
+    Option (List (Nat × Bool) × Option (Op × Obs)) :=
+  if obS == "bad-op" || obS == "full" then some (held, none) else
+  match opS.splitOn " " with
+  | ["pins", t, k, v] => do
+    some ((← t.toNat?, true) :: held, some (.ins (← k.toNat?) (← v.toNat?), .ok))
+  | ["pinv", t, k] => do
+    let t ← t.toNat?
+    let k ← k.toNat?
+    if obS == "held" then some ((t, true) :: held, some (.inv k, .ok))
+    else if obS == "none" then some (held, some (.inv k, .ok)) else none
+  | ["pget", t, k] => do
+    let ob ← parseObs obS
+    some ((← t.toNat?, false) :: held, some (.get (← k.toNat?), ob))
+  | ["penq", t] => do
+    let t ← t.toNat?
+    some (held.filter (fun x => x.1 != t), none)
+  | ["maint"] => some (held, some (.sync, .ok))
+  | _ => do
+    let op ← parseOp opS
+    let ob ← parseObs obS
+    match ob with
+    | .snap sn =>
+      let hw := (held.filter (·.2)).length
+      let hr := (held.filter (fun x => !x.2)).length
+      some (held, some (op, .snap { sn with wq := sn.wq + hw, rq := sn.rq + hr }))
+    | _ => some (held, some (op, ob))
 
 def finishCase (prop : String) (out : IO.FS.Stream) (c : Case) : IO Unit := do
   match c.parseError, c.cfg with
@@ -255,6 +360,14 @@ partial def oracleLoop (prop : String) (h : IO.FS.Stream) (out : IO.FS.Stream)
     | some c =>
       match l.splitOn " -> " with
       | [opS, obS] =>
+        if (c.cfg.map (·.kind)) == some Kind.concs then
+          match concsLineToTrace c.held opS.trimAscii.toString obS.trimAscii.toString with
+          | some (held', some oo) => oracleLoop prop h out (some { c with trace := oo :: c.trace, held := held' }) n
+          | some (held', none) => oracleLoop prop h out (some { c with held := held' }) n
+          | none =>
+            let c' := if c.parseError.isSome then c else { c with parseError := some l }
+            oracleLoop prop h out (some c') n
+        else
         match parseOp opS, parseObs obS with
         | some op, some ob => oracleLoop prop h out (some { c with trace := (op, ob) :: c.trace }) n
         | _, _ =>
